@@ -103,7 +103,7 @@ Record validity_cfg := mkVal { v_from : bytes; v_until : bytes; v_duration : byt
 Record validity := mkValidity { vl_from : wall; vl_until : wall; vl_is_set : bool; vl_is_static : bool }.
 
 (* CertValidity.toTimeStruct; [now] = local wall clock at parse time *)
-Definition to_time_struct (swapped : bool) (v : validity_cfg) (now : wall) : option validity :=
+Definition to_time_struct_dates (swapped : bool) (v : validity_cfg) (now : wall) : option validity :=
   let from_r := match v_from v with
                 | [] => Some (now, false)
                 | s => match parse_date swapped s with Some (y, m, d) => Some (mkWall y m d 0, true) | None => None end
@@ -128,4 +128,11 @@ Definition to_time_struct (swapped : bool) (v : validity_cfg) (now : wall) : opt
       end
     | [], [] => Some (mkValidity frm (add_date frm 5 0 0) has_from has_from)
     end
+  end.
+
+(* neither X.509 nor the JSON form the configuration hash is made from can express a date after the year 9999 (F28) *)
+Definition to_time_struct (swapped : bool) (v : validity_cfg) (now : wall) : option validity :=
+  match to_time_struct_dates swapped v now with
+  | Some r => if w_y (vl_until r) <=? 9999 then Some r else None
+  | None => None
   end.
